@@ -160,6 +160,25 @@ func lockCall(ce *ast.CallExpr) (se *ast.SelectorExpr, kind string) {
 	return nil, ""
 }
 
+// procLocals: package-level variables that are per-process state in the real
+// program. Their *uses* (not the declaration) are replaced by
+// verifsimrt.ProcLocal(name, constructor).(type) so that every simulated node
+// gets its own instance. file -> variable -> (constructor source, type source)
+var procLocals = map[string]map[string][2]string{
+	"dkv/db.go": {
+		"flushMemTablesQueue": {"bg.NewQueue(5)", "*bg.TaskQueue"},
+		"compactionQueue":     {"bg.NewQueue(5)", "*bg.TaskQueue"},
+	},
+}
+
+func mustExpr(src string) ast.Expr {
+	e, err := parser.ParseExpr(src)
+	if err != nil {
+		die("bad expression %q: %v", src, err)
+	}
+	return e
+}
+
 // chanNames holds identifiers (fields, variables, parameters) declared with a
 // channel type anywhere in the simulated packages; `for x := range <name>` over
 // one of them gets a scheduling point at the top of its body.
@@ -241,6 +260,34 @@ func rewriteFile(fset *token.FileSet, f *ast.File, rel string, stats map[string]
 			}
 			c.Replace(&ast.ExprStmt{X: call("Send", str("send@"+pos(n)), n.Chan, n.Value)})
 			stats["send"]++
+			changed = true
+		case *ast.Ident:
+			pl, ok := procLocals[rel][n.Name]
+			if !ok {
+				return true
+			}
+			switch par := c.Parent().(type) {
+			case *ast.ValueSpec: // the declaration itself stays
+				return true
+			case *ast.AssignStmt: // assignments (the verif reset hook) stay too
+				for _, l := range par.Lhs {
+					if l == ast.Expr(n) {
+						return true
+					}
+				}
+			case *ast.SelectorExpr:
+				if par.Sel == n {
+					return true
+				}
+			}
+			c.Replace(&ast.TypeAssertExpr{
+				X: call("ProcLocal", str(rel+":"+n.Name), &ast.FuncLit{
+					Type: &ast.FuncType{Params: &ast.FieldList{}, Results: &ast.FieldList{List: []*ast.Field{{Type: ast.NewIdent("any")}}}},
+					Body: &ast.BlockStmt{List: []ast.Stmt{&ast.ReturnStmt{Results: []ast.Expr{mustExpr(pl[0])}}}},
+				}),
+				Type: mustExpr(pl[1]),
+			})
+			stats["proc-local"]++
 			changed = true
 		case *ast.UnaryExpr:
 			if n.Op != token.ARROW {
